@@ -35,6 +35,10 @@ func (d BinomialDist) PMF(k float64) float64 {
 // independent Bernoulli trials with probability d.P.
 func (d BinomialDist) CDF(k float64) float64 {
 	k = math.Floor(k)
+	if k >= float64(d.N) {
+		// Also covers k beyond the range of int.
+		return 1
+	}
 	ki := int(k)
 	if ki < 0 {
 		return 0
